@@ -58,8 +58,12 @@ class StackingForecaster(
         y_fcst = y.iloc[train_window]
         y_meta = y.iloc[test_window].values
 
-        # fit forecasters on training window
-        self._fit_forecasters(forecasters, y_fcst, fh=self.fh, X=X)
+        # fit forecasters on training window; the horizon is passed relative to the
+        # cutoff, so that the forecasters predict the held-out window (an absolute
+        # horizon refers to time points after the end of the entire series)
+        self._fit_forecasters(
+            forecasters, y_fcst, fh=self.fh.to_relative(self.cutoff), X=X
+        )
         X_meta = np.column_stack(self._predict_forecasters(X))
 
         # fit final regressor on on validation window
